@@ -891,6 +891,10 @@ fn flat_queries() -> Vec<QS> {
     for d in DERIVEDS {
         v.push(QS::Derived { d, w: W::None });
     }
+    // derived tables with a filter of their own (also the bases of the nested derived forms)
+    for d in [Derived::Plain, Derived::InnerJoin, Derived::LeftJoin, Derived::InOverDerived] {
+        v.push(QS::Derived { d, w: W::Local });
+    }
     for op in SetOp::ALL {
         for all in [false, true] {
             for form in SETFORMS {
